@@ -228,6 +228,10 @@ const SCHEMAS = [
   S('plus', "'l' + `t` + @X@"),
   S('method', "a.concat(`t` + 'l', @X@)"),
   S('tpl', '`${`t` + `u`}${@X@}`'),
+  // direct eval of code that reads and declares names of the calling scope
+  S('bare', "eval('a + b')"),
+  S('bare', "eval('var ev1 = a; ev1 + ' + @X@ + ')", { tail: true }),
+  S('bare', 'eval(@X@)'),
   // more arguments than the form needs: they are still evaluated
   S('proto', 'X.prototype.concat.apply(a, [@X@], @Y@)', { surplus: true }),
   S('proto', 'X.prototype.concat.apply(a, arr, f(), @X@)', { surplus: true }),
